@@ -186,6 +186,9 @@ func c18HelperJob(raw json.RawMessage) (any, error) {
 		if ct := w.SentH.Values("Content-Type"); len(ct) != 1 || ct[0] != "message/http" {
 			rep("content-type-after-status", fmt.Sprintf("Content-Type as sent: %q (live map afterwards: %q)", ct, w.H.Values("Content-Type")), "exactly one Content-Type: message/http, sent with the response")
 		}
+		if cl := w.SentH.Get("Content-Length"); cl != "" && cl != fmt.Sprint(len(w.Body)) {
+			rep("content-length-mismatch", fmt.Sprintf("Content-Length as sent: %s, body written: %d bytes", cl, len(w.Body)), "no Content-Length, or the length of the body that follows")
+		}
 		if string(w.Body) != want {
 			class := "body-not-escaped-dump"
 			if !withBody && body != "" && strings.Contains(string(w.Body), html.EscapeString(body)) {
@@ -209,6 +212,87 @@ func c18HelperJob(raw json.RawMessage) (any, error) {
 	return out, nil
 }
 
+// c18Composition: every way a router can come by its TRACE handler - the last WithTrace of its own option list
+// wins, a router made by Group.New inherits the group's option unless it brings its own, a router that is
+// merely Added keeps what it was made with.
+func c18Composition(rc *explore.RunCtx) {
+	tr := func(id string) *hv.H { return &hv.H{ID: id, Kind: "TRACE"} }
+	type sys struct {
+		name   string
+		srv    func() (http.Handler, *Router)
+		expect string // ID of the handler that answers TRACE, "" = TRACE is an ordinary method
+	}
+	systems := []sys{
+		{"NewRouter(WithTrace(t1), WithTrace(t2))", func() (http.Handler, *Router) {
+			r := NewRouter(RouterCfg{}, mux.WithTrace(tr("t1")), mux.WithTrace(tr("t2")))
+			return r, r
+		}, "t2"},
+		{"NewGroup(WithTrace(tG)).New(r)", func() (http.Handler, *Router) {
+			g := newGroup(mux.WithTrace(tr("tG")))
+			return g, g.New("r", nil)
+		}, "tG"},
+		{"NewGroup(WithTrace(tG)).New(r, WithTrace(tR))", func() (http.Handler, *Router) {
+			g := newGroup(mux.WithTrace(tr("tG")))
+			return g, g.New("r", nil, mux.WithTrace(tr("tR")))
+		}, "tR"},
+		{"NewGroup(WithTrace(tG), WithURLDomain).New(r, WithLock, WithTrace(tR), WithURLDomain)", func() (http.Handler, *Router) {
+			g := newGroup(mux.WithTrace(tr("tG")), mux.WithURLDomain("https://g"))
+			return g, g.New("r", nil, mux.WithLock(true), mux.WithTrace(tr("tR")), mux.WithURLDomain("https://r"))
+		}, "tR"},
+		{"NewGroup().New(r, WithTrace(tR))", func() (http.Handler, *Router) {
+			g := newGroup()
+			return g, g.New("r", nil, mux.WithTrace(tr("tR")))
+		}, "tR"},
+		{"NewGroup(WithTrace(tG)).Add(NewRouter())", func() (http.Handler, *Router) {
+			g := newGroup(mux.WithTrace(tr("tG")))
+			r := NewRouter(RouterCfg{Name: "added"})
+			g.Add(nil, r)
+			return g, r
+		}, ""},
+		{"NewGroup().Add(NewRouter(WithTrace(tR)))", func() (http.Handler, *Router) {
+			g := newGroup()
+			r := NewRouter(RouterCfg{Name: "added"}, mux.WithTrace(tr("tR")))
+			g.Add(nil, r)
+			return g, r
+		}, "tR"},
+	}
+	for _, s := range systems {
+		srv, r := s.srv()
+		r.Handle("/a", hv.Route("hA"), nil, "GET")
+		for _, via := range []struct {
+			name string
+			h    http.Handler
+		}{{"through the group / router", srv}, {"router served directly", r}} {
+			for _, p := range []string{"/a", "/nowhere", "*"} {
+				o := hv.Serve(via.h, hv.Req{Method: "TRACE", Path: p})
+				rc.Add("states", 1)
+				rc.Outcome(fmt.Sprintf("composition/%s/%d", o.CoreID, o.Status))
+				want := s.expect
+				if want == "" {
+					want = map[string]string{"/a": "405", "/nowhere": "404", "*": "405"}[p]
+				}
+				got := o.CoreID
+				if o.Paniced {
+					got = fmt.Sprintf("panic: %v", o.Panic)
+				}
+				if got != want {
+					rc.Report(explore.Violation{Property: "C18", Clause: "C18.option-composition", Class: "wrong-trace-handler", Config: s.name, Probe: "TRACE " + p + " " + via.name, Observed: "answered by " + got, Expected: "answered by " + want})
+				}
+			}
+		}
+		// with a TRACE handler in force (and only then) TRACE cannot be registered by hand and is listed in Allow
+		_, paniced := Guard(func() { r.Handle("/t", hv.Route("hT"), nil, "TRACE") })
+		if paniced != (s.expect != "") {
+			rc.Report(explore.Violation{Property: "C18", Clause: "C18.option-composition", Class: "trace-registrable-mismatch", Config: s.name, Probe: "Handle(/t, TRACE)", Observed: fmt.Sprintf("rejected=%v", paniced), Expected: fmt.Sprintf("rejected=%v", s.expect != "")})
+		}
+		if o := hv.Serve(r, hv.Req{Method: "OPTIONS", Path: "/a"}); o.Header != nil {
+			if got := contains(ref.ParseAllow(o.Header.Get("Allow")), "TRACE"); got != (s.expect != "") {
+				rc.Report(explore.Violation{Property: "C18", Clause: "C18.option-composition", Class: "trace-allow-mismatch", Config: s.name, Probe: "OPTIONS /a", Observed: o.Header.Get("Allow"), Expected: fmt.Sprintf("TRACE listed: %v", s.expect != "")})
+			}
+		}
+	}
+}
+
 func init() {
 	c18Spec.register("c18/expand")
 	explore.RegisterJob("c18/helper", c18HelperJob)
@@ -220,10 +304,12 @@ func init() {
 		rc.Set("depth_bound", depth)
 		rc.Assume = append(rc.Assume,
 			"route tables: every history over the C04 alphabet plus Use(A) up to the depth bound, with and without WithTrace(handler calling mux.Trace); in every state TRACE on every witness, on non-routes, on '*' and '', the Allow header of OPTIONS/405 and OPTIONS *, Routes(), and manual registration of TRACE on a live and on a new pattern",
-			"helper: mux.Trace on the wire-semantics ResponseWriter for every pair of strings over {a < > & \" ' NUL 0xc3} up to length 2 (plus mixed samples) placed in path, header value, method and body, with the body flag both ways; status, Content-Type as sent, body = html.EscapeString(httputil.DumpRequest)")
+			"option composition: 7 ways a router comes by its TRACE handler (repeated option, inherited from NewGroup, overridden in Group.New among other options, Added routers with and without their own) x TRACE on a route, a non-route and '*', through the group and directly; manual TRACE registration and the Allow header follow the handler actually in force",
+			"helper: mux.Trace on the wire-semantics ResponseWriter for every pair of strings over {a < > & \" ' NUL 0xc3} up to length 2 (plus mixed samples) placed in path, header value, method and body, with the body flag both ways; status, Content-Type as sent, a Content-Length (if one is sent) equal to the body length, body = html.EscapeString(httputil.DumpRequest)")
 		for _, cfg := range []RouterCfg{{}, {Trace: true}} {
 			explore.BFS(rc, "c18/expand", histCfg{Router: cfg}, depth, true, "C18 "+cfg.String())
 		}
+		c18Composition(rc)
 		n := len(explore.AllStrings(c18Bytes, 2)) + 5
 		var items []c18HelperItem
 		for i := 0; i < n; i++ {
